@@ -51,7 +51,10 @@ CFG = {
     ),
     "rule": (
         "one case = one forced schedule (12-37 random API actions over 3-6 callers and 2-5 keys, then a drain) on one "
-        "freshly built locker; a case is non-trivial when it has at least 6 rounds and at some quiescent point a live "
+        "freshly built locker; plus the class long-lists (50 per quick run): sharded generic lockers (modulo/xxhash; 2, 3, 73 "
+        "shards), Locks/RLocks of 13-24 keys ascending in one global order with several keys per shard, either "
+        "parked at a helper-held key and probed by single-key Locks on same-shard keys before/after it, or two such "
+        "callers sharing same-shard keys behind private blockers and then drained; a case is non-trivial when it has at least 6 rounds and at some quiescent point a live "
         "caller was blocked (had not returned); distinct = distinct Coq case term (actions + observations + labels)"
     ),
     "trusted": [
